@@ -501,17 +501,41 @@ pub fn build<G: K>(defs: &Defs, env: &Env, e: &Sexp) -> G {
                     .cast_into()
                 }
                 "project" => {
-                    let mut env2 = env.clone();
-                    let mut cells = vec![];
-                    for n in args[0].list() {
-                        let v = env.get(n.atom()).unwrap_or_else(|| panic!("harness: unbound name {}", n.atom()));
-                        let cell = LTerm::projection(v);
-                        cells.push(cell.clone());
-                        env2 = env2.bind(n.atom(), cell);
-                    }
-                    let b: Vec<Vec<G>> = args[1..].iter().map(|g| vec![build::<G>(defs, &env2, g)]).collect();
-                    let body: G = with_slices(&b, |s| InferredConj::<U, E, G>::from_conjunctions(s).cast_into());
-                    Project::new(cells, body).cast_into()
+                    // as Project::to_tokens: the body is built by a closure from the projected values
+                    let names: Vec<String> = args[0].list().iter().map(|n| n.atom().to_string()).collect();
+                    let vars: Vec<T> = names
+                        .iter()
+                        .map(|n| env.get(n).unwrap_or_else(|| panic!("harness: unbound name {}", n)))
+                        .collect();
+                    let defs2 = defs.clone();
+                    let env2 = env.clone();
+                    let body: Vec<Sexp> = args[1..].to_vec();
+                    Project::new(
+                        vars,
+                        Box::new(move |projected: Vec<T>| -> G {
+                            let mut env3 = env2.clone();
+                            for (n, t) in names.iter().zip(projected.into_iter()) {
+                                env3 = env3.bind(n, t);
+                            }
+                            let b: Vec<Vec<G>> = body.iter().map(|g| vec![build::<G>(&defs2, &env3, g)]).collect();
+                            with_slices(&b, |s| InferredConj::<U, E, G>::from_conjunctions(s).cast_into())
+                        }),
+                    )
+                    .cast_into()
+                }
+                "sq" => {
+                    // a non-relational goal (the sqeq of the library's project tests): (sq U V) succeeds with V = U*U
+                    // only if U *is* a number when the goal is built; it does not look U up in the state
+                    let u = build_term(env, &args[0]);
+                    let v = build_term(env, &args[1]);
+                    FnGoal::new::<G>(Box::new(move |_solver: &Solver<U, E>, state: State<U, E>| match u.as_ref() {
+                        LTermInner::Val(LValue::Number(n)) => match state.unify(&LTerm::from(n * n), &v) {
+                            Ok(s) => Stream::unit(Box::new(s)),
+                            Err(_) => Stream::empty(),
+                        },
+                        _ => Stream::empty(),
+                    }))
+                    .cast_into()
                 }
                 "probe" => {
                     // records the hook counters and the store size of every state that reaches it
@@ -662,4 +686,44 @@ pub fn run(args: &[Sexp]) -> String {
     let fused = if end == "done" { iter.next().is_none() && iter.next().is_none() } else { true };
     let probes = PROBES.with(|p| p.borrow().join(" "));
     format!("{}(end {}{}) (probes {})", out, end, if fused { "" } else { " notfused" }, probes)
+}
+
+// formatting of one answer, shared with the compiled surface-syntax batches (gen/surface.py)
+pub fn fmt_answer(results: &[LResult<U, E>], steps: u64) -> String {
+    let mut out = String::from("(ans (");
+    for (i, r) in results.iter().enumerate() {
+        if i > 0 {
+            out.push(' ');
+        }
+        out.push_str(&show_term_any(&r.0));
+    }
+    out.push_str(") (");
+    if let Some(r) = results.first() {
+        let mut cs: Vec<String> = r.1.iter().map(show_constraint).collect();
+        cs.sort();
+        out.push_str(&cs.join(" "));
+    }
+    out.push_str(") (");
+    for (i, r) in results.iter().enumerate() {
+        if i > 0 {
+            out.push(' ');
+        }
+        let mut cs: Vec<String> = r.constraints().map(show_constraint).collect();
+        cs.sort();
+        out.push_str(&format!("({})", cs.join(" ")));
+    }
+    out.push_str(&format!(") {}) ", steps));
+    out
+}
+
+// the non-relational goal used with project (as sqeq in the library's own project tests)
+pub fn sq<G: K>(u: T, v: T) -> G {
+    FnGoal::new::<G>(Box::new(move |_solver: &Solver<U, E>, state: State<U, E>| match u.as_ref() {
+        LTermInner::Val(LValue::Number(n)) => match state.unify(&LTerm::from(n * n), &v) {
+            Ok(s) => Stream::unit(Box::new(s)),
+            Err(_) => Stream::empty(),
+        },
+        _ => Stream::empty(),
+    }))
+    .cast_into()
 }
